@@ -65,7 +65,7 @@ class FrameFit(Contract):
         snap = {p: s.fields.get(p) for p in self.params}
         ev = {p: len(v.events) for p, v in snap.items() if isinstance(v, Obj)}
         writes = {d: a[d].cell.writes for d in self.data if isinstance(a.get(d), NdArr)}
-        return dict(params=snap, events=ev, writes=writes, tl=len(E.trace))
+        return dict(params=snap, events=ev, writes=writes, tl=len(E.trace), fields={k: v for k, v in s.fields.items() if not k.startswith("$")})
 
     def signals(self, E, a, exc, old):
         return {}      # fit may fail (invalid data, inner estimator failing): the frame below is what is checked
@@ -92,3 +92,8 @@ class FrameFit(Contract):
 
     def ensures(self, E, a, res, old):
         return {"returns_self": z3.BoolVal(res is a["self"])}
+
+    # vacuity guard: a successful fit must change the instance (a fitted attribute appears or is replaced); the claim that it does not must fail
+    canaries = {"a_successful_fit_leaves_the_instance_as_it_was": lambda E, a, res, old: z3.BoolVal(
+        {k: v for k, v in a["self"].fields.items() if not k.startswith("$")}.keys() == old["fields"].keys()
+        and all(a["self"].fields[k] is v for k, v in old["fields"].items()))}
